@@ -129,7 +129,7 @@ func TestC17Mutations(t *testing.T) {
 	si, sn := rep.Shard()
 	lc := localClasses{}
 	defer lc.flush(r)
-	bases := baseCases()
+	bases := shortBaseCases()
 	mdurs := []time.Duration{time.Second, time.Hour, 100 * 24 * time.Hour}
 	moreSecrets := []string{"", "s", "S", "s ", "t", secret32, secret32[:31] + "w", secret32 + secret32 + "!"}
 	r.Bound = len(bases)
@@ -201,7 +201,7 @@ outer:
 				// user part, every other stamp nearby, and the other generator's form.
 				var others []string
 				st, _ := refStamp(b.Kind, c.User)
-				for _, u2 := range append([]string{"x", "u2", "u:", ":u"}, users...) {
+				for _, u2 := range append([]string{"x", "u2", "u:", ":u"}, users[:4]...) {
 					others = append(others, refUsername("rest", st, u2))
 				}
 				for _, ds := range []int64{-1, 1, 10, -3600} {
